@@ -9,7 +9,7 @@ use crate::layouts::*;
 use crate::mon_compose::{KOp, Twin};
 use crate::report::guarded;
 use crate::scan::*;
-use pc_keyboard::{HandleControl, KeyEvent, KeyState, Keyboard, Ps2Decoder, ScancodeSet1, ScancodeSet2};
+use pc_keyboard::{HandleControl, KeyEvent, KeyState, Keyboard, ScancodeSet1, ScancodeSet2};
 
 fn bytes_of(j: Option<&J>) -> Vec<u8> {
     j.and_then(|a| a.as_arr()).map(|a| a.iter().filter_map(|x| x.as_i64()).map(|x| x as u8).collect()).unwrap_or_default()
@@ -49,6 +49,28 @@ pub fn run(path: &str) -> i32 {
     println!("recorded: {}", doc.get("what").and_then(|s| s.as_str()).unwrap_or("?"));
     let Some(rp) = doc.get("replay") else { return 2 };
     let kind = rp.get("kind").and_then(|k| k.as_str()).unwrap_or("");
+    if let Some(c) = rp.get("ctor").and_then(|k| k.as_str()) {
+        // the case was recorded with decoders built by a further constructor of the tree
+        use std::sync::atomic::Ordering::SeqCst;
+        let found = [
+            (&CTOR_SET1, extra_ctors_set1().iter().map(|x| format!("ScancodeSet1::{}", x.0)).collect::<Vec<_>>()),
+            (&CTOR_SET2, extra_ctors_set2().iter().map(|x| format!("ScancodeSet2::{}", x.0)).collect::<Vec<_>>()),
+            (&CTOR_PS2, extra_ctors_ps2().iter().map(|x| format!("Ps2Decoder::{}", x.0)).collect::<Vec<_>>()),
+        ]
+        .iter()
+        .any(|(slot, names)| match names.iter().position(|n| n == c) {
+            Some(i) => {
+                slot.store(i + 1, SeqCst);
+                true
+            }
+            None => false,
+        });
+        if !found {
+            println!("the constructor {} the case was recorded with no longer exists", c);
+            return 0;
+        }
+        println!("decoders built with {}", c);
+    }
     let observed = rp.get("observed_last").and_then(|k| k.as_str()).unwrap_or("").to_string();
     let expected = rp.get("expected_last").and_then(|k| k.as_str()).unwrap_or("").to_string();
     let last: String = match kind {
@@ -89,7 +111,7 @@ pub fn run(path: &str) -> i32 {
             let mut last = String::new();
             for w in rp.get("words").and_then(|a| a.as_arr()).cloned().unwrap_or_default() {
                 let w = w.as_i64().unwrap_or(0) as u16;
-                let r = guarded(|| Ps2Decoder::new().add_word(w));
+                let r = guarded(|| crate::scan::fresh_ps2().add_word(w));
                 last = match r {
                     Ok(r) => crate::model::frame_res_str(&r),
                     Err(_) => "PANIC".into(),
@@ -99,7 +121,7 @@ pub fn run(path: &str) -> i32 {
             last
         }
         "bit-ops" => {
-            let mut d = Ps2Decoder::new();
+            let mut d = crate::scan::fresh_ps2();
             let mut last = String::new();
             for op in rp.get("ops").and_then(|a| a.as_arr()).cloned().unwrap_or_default() {
                 let op = op.as_str().unwrap_or("").to_string();
@@ -180,11 +202,21 @@ pub fn run(path: &str) -> i32 {
             last
         }
         "events" => {
-            let mut kb = Keyboard::new(ScancodeSet2::new(), dyn_layout(0, 0), HandleControl::MapLettersToUnicode);
-            let mut last = String::new();
+            // the layout and the initial Ctrl mode the case was recorded with (default: first layout, mapping on)
+            let li = rp.get("layout").and_then(|s| s.as_str()).and_then(layout_index);
+            let Some(li) = li.or(if rp.get("layout").is_none() { Some(0) } else { None }) else {
+                println!("(the case was recorded over a layout this replay cannot rebuild)");
+                return 2;
+            };
+            let init = if rp.get("initial_mode").and_then(|s| s.as_str()) == Some("Ignore") { HandleControl::Ignore } else { HandleControl::MapLettersToUnicode };
+            let mut kb = Keyboard::new(ScancodeSet2::new(), dyn_layout(li, 0), init);
+            let mut last_key = String::from("None");
+            let mut last_mods = String::new();
             for op in rp.get("ops").and_then(|a| a.as_arr()).cloned().unwrap_or_default() {
                 let op = op.as_str().unwrap_or("").to_string();
-                if let Some(rest) = op.strip_prefix("set_ctrl_handling(") {
+                if let Some(x) = extra_kb_op_names().iter().position(|n| *n == op) {
+                    extra_kb_op!(kb, x);
+                } else if let Some(rest) = op.strip_prefix("set_ctrl_handling(") {
                     kb.set_ctrl_handling(if rest.starts_with("Map") { HandleControl::MapLettersToUnicode } else { HandleControl::Ignore });
                 } else if let Some(p) = op.find('(') {
                     let st = match &op[..p] {
@@ -194,12 +226,26 @@ pub fn run(path: &str) -> i32 {
                     };
                     if let Some(k) = key_by_name(&op[p + 1..op.len() - 1]) {
                         let r = guarded(|| kb.process_keyevent(KeyEvent::new(k, st)));
-                        println!("  {} → {:?}   modifiers {}", op, r.ok().flatten(), mods_str(bits_from_mods(kb.get_modifiers())));
+                        last_key = match &r {
+                            Ok(d) => odk_str(d),
+                            Err(_) => "PANIC".into(),
+                        };
+                        println!("  {} → {}   modifiers {}", op, last_key, mods_str(bits_from_mods(kb.get_modifiers())));
                     }
                 }
-                last = mods_str(bits_from_mods(kb.get_modifiers()));
+                last_mods = mods_str(bits_from_mods(kb.get_modifiers()));
             }
-            last
+            // the recorded outcome is either a modifier record (C04) or a decoded key (C14 and the layout properties)
+            println!("now observed: last decoded key {}, modifiers {}\nrecorded wrong outcome: {}\nexpected: {}", last_key, last_mods, observed, expected);
+            if observed != expected && (observed == last_mods || observed == last_key) {
+                println!("REPRODUCED");
+                return 1;
+            }
+            if expected == last_mods || expected == last_key || expected.split('|').any(|e| e == last_key) {
+                println!("NOT-REPRODUCED");
+                return 0;
+            }
+            return 2;
         }
         _ => {
             println!("(no direct trace for case kind '{}')", kind);
